@@ -5,6 +5,11 @@ var ruleTexts = map[string]string{
 	"C02": "C01 worlds with clean shutdown/reopen at drawn positions (Close racing the real flusher / hint dumper / post-rotation flush tasks under the seeded scheduler) and a drawn subset of *.idx.hash, *.idx.s, *.idx.m deleted before each reopen; after every reopen all keys are read (get + meta-get) and compared with the model. Non-trivial: as C01 and >=1 restart; distinct as C01.",
 	"C03": "histories spread over several small data files, GC through the public HStore.GC with drawn (start,end,no_gc_days,merge,pretend), full read-back after the pass, restarts with index subsets removed, further operations and passes. Non-trivial: >=1 completed pass that released >=1 record and kept >=1; distinct as C01.",
 	"C18": "C03 worlds; after each completed pass the independent scanner reads every surviving data file of the resolved range and compares each record with the model's current record of its key; prefix of an appended-to earlier file compared byte for byte. Non-trivial: a pass released >=1 and kept >=1 record.",
+	"C04": "one world = 2..16 client tasks x 5..25 operations (set, delete, get, meta-get through HStore) on 2..6 shared keys in 1..3 buckets + the real Flusher and HintDumper loops + an environment task (forced flush, hint dump, clock jumps), interleaved by a seeded scheduler (random walk / PCT / spawn delay, optional yields at store function entries); the history (event-counter stamped) is checked per key with porcupine. Non-trivial: at least two operations of different clients on one key overlapped; distinct by (configuration class, history length, schedule-trace hash).",
+	"C05": "C04 worlds preceded by a sequential preload over several small data files and accompanied by one public GC pass (drawn range, merge on/off, optional CancelGC) started at a drawn step; reads overlapping the pass may miss or fail (counted as degraded), everything else is checked as in C04, then final state and clean restart. Non-trivial: overlapping operations and an accepted pass.",
+	"C17": "two kinds of worlds: (a) sequential histories with many GC requests with arbitrary (start,end,no_gc_days,merge,pretend) incl. negative / out-of-range ids, clock jumps of hours..weeks, gaps from earlier passes, unflushed head: the disk-seam event log of every pass and before/after inventories are checked; (b) two competing GC requests for one bucket under seeded schedules with a pass-overlap detector. Non-trivial: >=1 accepted pass (b) or >=3 writes and >=2 read hits (a).",
+	"C06": "a generated history (C02 style: writes, flushes, rotation, hint and tree dumps, clean restarts) is executed once; at file-system mutation boundaries (every boundary in the thorough tier, a drawn 1/6 in the quick tier) the directory is snapshotted as SIGKILL would leave it, plus torn variants of every data write (1 byte, header-1, header+1, every 256 boundary, one drawn cut; two drawn cuts in quick); each snapshot is recovered with NewHStore and every key is read. evaluations = recovered snapshots; distinct_nontrivial = distinct (fault kind, number of keys with a durable record, partial-tail yes/no, cut mod 256) classes.",
+	"C07": "C03-style layouts with one or more GC passes and no concurrent writes; snapshots at the file-system mutation boundaries inside each pass (+ torn relocated records), recovered and read back against the pre-pass model state. evaluations and classes as C06.",
 	"C15": "C01-style worlds over bucket count {1,16,256} with served subsets none/one/some/all and keys routed by the reference key hash into served and unserved buckets; every data append seen at the disk seam is decoded and its directory compared with the reference routing; unserved keys must miss and cause no append; upper-level listings are compared with the aggregate of bucket roots. Non-trivial: >=3 accepted writes and >=2 read hits.",
 }
 
